@@ -88,6 +88,8 @@ func c02(c *Ctx) {
 	if n := checkGuardReplacedOnSuccess(p, r, "C02.R8"); n == 0 {
 		r.Und("C02.R8", "guard replacement", "", "no mocker records a guard built from a fallible call")
 	}
+	checkCancelledFlagOnlyByCancel(p, r, "C02.R9", nil)
+	checkForwardUnderCancelGuards(p, r, "C02.R9")
 	r.Floor("C02.R2", 2)
 	r.Floor("C02.R3", 3)
 	r.Floor("C02.R4", 3)
